@@ -82,7 +82,10 @@ func memoryCopierGas(stackpos int) gasFunc {
 			return 0, ErrGasUintOverflow
 		}
 		if common.IsProposal026() {
-			return gas * common.GasMagnification, nil
+			if gas, overflow = utility.SafeMul(gas, common.GasMagnification); overflow {
+				return 0, ErrGasUintOverflow
+			}
+			return gas, nil
 		}
 		return gas, nil
 	}
@@ -143,7 +146,10 @@ func makeGasLog(n uint64) gasFunc {
 			return 0, ErrGasUintOverflow
 		}
 		if common.IsProposal026() {
-			return gas * common.GasMagnification, nil
+			if gas, overflow = utility.SafeMul(gas, common.GasMagnification); overflow {
+				return 0, ErrGasUintOverflow
+			}
+			return gas, nil
 		}
 		return gas, nil
 	}
@@ -165,7 +171,10 @@ func gasSha3(evm *EVM, contract *Contract, stack *Stack, mem *Memory, memorySize
 		return 0, ErrGasUintOverflow
 	}
 	if common.IsProposal026() {
-		return gas * common.GasMagnification, nil
+		if gas, overflow = utility.SafeMul(gas, common.GasMagnification); overflow {
+			return 0, ErrGasUintOverflow
+		}
+		return gas, nil
 	}
 	return gas, nil
 }
@@ -203,7 +212,10 @@ func gasCreate2(evm *EVM, contract *Contract, stack *Stack, mem *Memory, memoryS
 		return 0, ErrGasUintOverflow
 	}
 	if common.IsProposal026() {
-		return gas * common.GasMagnification, nil
+		if gas, overflow = utility.SafeMul(gas, common.GasMagnification); overflow {
+			return 0, ErrGasUintOverflow
+		}
+		return gas, nil
 	}
 	return gas, nil
 }
@@ -219,7 +231,10 @@ func gasExpFrontier(evm *EVM, contract *Contract, stack *Stack, mem *Memory, mem
 		return 0, ErrGasUintOverflow
 	}
 	if common.IsProposal026() {
-		return gas * common.GasMagnification, nil
+		if gas, overflow = utility.SafeMul(gas, common.GasMagnification); overflow {
+			return 0, ErrGasUintOverflow
+		}
+		return gas, nil
 	}
 	return gas, nil
 }
@@ -235,7 +250,10 @@ func gasExpEIP158(evm *EVM, contract *Contract, stack *Stack, mem *Memory, memor
 		return 0, ErrGasUintOverflow
 	}
 	if common.IsProposal026() {
-		return gas * common.GasMagnification, nil
+		if gas, overflow = utility.SafeMul(gas, common.GasMagnification); overflow {
+			return 0, ErrGasUintOverflow
+		}
+		return gas, nil
 	}
 	return gas, nil
 }
